@@ -6,7 +6,7 @@ from contracts import looplib as LL
 from contracts import spec_config as SCFG
 from contracts import spec_sd as SS
 from contracts import spec_store as ST
-from contracts.common import gen_addr
+from contracts.common import check_frame, gen_addr
 
 FUNCTIONS = [
     "someip.sd.ServiceDiscover.handle_offer",
@@ -106,6 +106,12 @@ class DWorld:
         for tag, addr, key in (("A_S", self.A, self.S), ("B_S", self.B, self.S), ("X_Sx", self.X, self.Sx)):
             if tag in track:
                 self.slots[(addr, key)] = self.state(addr, key)
+        self.heap = vc.snapshot(prot=self.prot)
+
+    def check_frame(self, label, allowed=()):
+        """besides the store of known offers (whose slot-level frame the obligations state)
+        nothing of the discovery part or the protocol object changes"""
+        check_frame(self.vc, self.heap, label, ("prot.discovery.found_services.store*",) + tuple(allowed))
 
     def gen_addr(self, vc, name):
         return vc.opaque(name, "addr")
@@ -157,6 +163,7 @@ class DWorld:
                     vc.check_eq(ev, ["offered"], label + ".appearance_reported_offered_once")
                 else:
                     vc.check_eq(ev, [], label + ".no_change_no_notification")
+        self.check_frame(label)
 
     def snapshot(self):
         return {slot: self.present(slot[0], slot[1]) for slot in self.slots}
@@ -271,6 +278,7 @@ def ob_reboot_detected(vc):
         vc.check_eq(w.present(w.X, w.Sx), before[(w.X, w.Sx)], "reboot_detected.entries_of_other_sources_kept")
     else:
         vc.check(not before[(w.X, w.Sx)] or True, "reboot_detected.entries_of_the_source_removed")
+    w.check_frame("reboot_detected")
 
 
 def ob_connection_lost(vc):
@@ -281,6 +289,7 @@ def ob_connection_lost(vc):
         vc.cover("done")
         for slot in w.slots:
             vc.check(not w.present(slot[0], slot[1]), "connection_lost.everything_forgotten")
+    w.check_frame("connection_lost")
 
 
 def ob_offer_after_reboot(vc):
@@ -296,6 +305,7 @@ def ob_offer_after_reboot(vc):
     w.loop.run_ready()
     vc.check_eq(w.events("L", w.S, w.A), ["offered"], "reboot.offer_of_the_same_message_reported_after_the_withdrawal")
     vc.check(w.present(w.A, w.S), "reboot.new_offer_is_live")
+    w.check_frame("reboot.offer")
 
 
 def _registration(vc, w, o, label, body_label, listener_name, kind, matches_all):
@@ -328,6 +338,7 @@ def ob_watch_service(vc):
     o = vc.outcome(vc.body(SD.ServiceDiscover.watch_service), w.disc, w.F, w.L)
     vc.check(w.L in w.disc.watched_services[w.F], "watch_service.registered")
     _registration(vc, w, o, "watch_service", "matching_live_offer_queued_for_the_new_listener_once", "L", "offered", False)
+    w.check_frame("watch_service", ("prot.discovery.watched_services*",))
 
 
 def ob_watch_all_services(vc):
@@ -335,6 +346,7 @@ def ob_watch_all_services(vc):
     o = vc.outcome(vc.body(SD.ServiceDiscover.watch_all_services), w.disc, w.Lall)
     vc.check(w.Lall in w.disc.watcher_all_services, "watch_all_services.registered")
     _registration(vc, w, o, "watch_all_services", "every_live_offer_queued_for_the_new_listener_once", "Lall", "offered", True)
+    w.check_frame("watch_all_services", ("prot.discovery.watcher_all_services*",))
 
 
 def ob_stop_watch(vc):
@@ -344,6 +356,7 @@ def ob_stop_watch(vc):
     o = vc.outcome(vc.body(SD.ServiceDiscover.stop_watch_service), w.disc, w.F, w.L)
     vc.check(w.L not in w.disc.watched_services[w.F], "stop_watch_service.unregistered")
     _registration(vc, w, o, "stop_watch_service", "matching_live_offer_reported_stopped_to_the_leaving_listener_once", "L", "stopped", False)
+    w.check_frame("stop_watch_service", ("prot.discovery.watched_services*",))
 
 
 def ob_stop_watch_all(vc):
@@ -352,6 +365,7 @@ def ob_stop_watch_all(vc):
     o = vc.outcome(vc.body(SD.ServiceDiscover.stop_watch_all_services), w.disc, w.Lall)
     vc.check(w.Lall not in w.disc.watcher_all_services, "stop_watch_all_services.unregistered")
     _registration(vc, w, o, "stop_watch_all_services", "every_live_offer_reported_stopped_to_the_leaving_listener_once", "Lall", "stopped", True)
+    w.check_frame("stop_watch_all_services", ("prot.discovery.watcher_all_services*",))
 
 
 def ob_late_registration_overtaken(vc):
